@@ -568,6 +568,12 @@ fn probes(ctx: &Ctx) {
         ("macro/state/segment-left-by-body-not-seen-by-following-org", ".macro toee\n.eseg\n.endm\n nop\n toee\n.db 1\n.org 0x10\n.db 2\n", " nop\n.eseg\n.db 1\n.org 0x10\n.db 2\n"),
         ("macro/state/exit-in-body-ends-only-the-expansion", ".macro m\n nop\n.exit\n.endm\n m\n ret\n", " nop\n.exit\n ret\n"),
         ("macro/state/toplevel-conditional-after-call-sees-stale-defines", ".macro setter\n#define SETTER_RAN\n.endm\n setter\n.ifdef SETTER_RAN\n.dw 1\n.else\n.dw 2\n.endif\n", ".dw 1\n"),
+        // a macro that is entered again while it is being expanded, with the very same arguments: what the second
+        // entry assembles depends on what the first has defined meanwhile
+        ("macro/reentered-with-same-arguments/mutual-behind-define-guards", ".macro need_uart\n.ifndef UART_DONE\n#define UART_DONE\n need_fifo\n ldi r16, 1\n.endif\n.endm\n.macro need_fifo\n.ifndef FIFO_DONE\n#define FIFO_DONE\n need_uart\n ldi r17, 2\n.endif\n.endm\n need_uart\n need_fifo\n nop\n", " ldi r17, 2\n ldi r16, 1\n nop\n"),
+        ("macro/reentered-with-same-arguments/self-behind-define-guard", ".macro once\n.ifndef ONCE_DONE\n#define ONCE_DONE\n once @0\n ldi @0, 3\n.endif\n.endm\n once r18\n once r18\n", " ldi r18, 3\n"),
+        ("macro/reentered-with-same-arguments/three-in-a-ring", ".macro ra\n.ifndef RA\n#define RA\n rb 1\n.dw 1\n.endif\n.endm\n.macro rb\n.ifndef RB\n#define RB\n rc 1\n.dw 2\n.endif\n.endm\n.macro rc\n.ifndef RC\n#define RC\n ra\n rb 1\n.dw 3\n.endif\n.endm\n ra\n", ".dw 3\n.dw 2\n.dw 1\n"),
+        ("macro/reentered-with-same-arguments/counting-down-by-equ", ".equ depth_limit = 3\n.macro down\n.if @0 > 0\n down @0 - 1\n.endif\n.dw @0\n.endm\n down depth_limit\n down depth_limit\n", ".dw 0\n.dw 1\n.dw 2\n.dw 3\n.dw 0\n.dw 1\n.dw 2\n.dw 3\n"),
         ("macro/pc-relative-in-repeated-one-line-body", ".macro dly\n rjmp pc+1\n.endm\n dly\n dly\n dly\n", " rjmp pc+1\n rjmp pc+1\n rjmp pc+1\n"),
         ("macro/body-starting-with-eseg", ".macro ee\n.eseg\n.db 1,2,3\n.dw 0x1234\n.cseg\n.endm\n nop\n ee\n nop\n", " nop\n.eseg\n.db 1,2,3\n.dw 0x1234\n.cseg\n nop\n"),
         ("macro/body-starting-with-eseg-called-first", ".macro ee\n.eseg\n.db 1,2,3\n.cseg\n.endm\n ee\n nop\n", ".eseg\n.db 1,2,3\n.cseg\n nop\n"),
